@@ -14,8 +14,9 @@ import (
 
 // Scenario is a closed client program plus what its oracles need to know.
 type Scenario struct {
-	Name string
-	Make func(cfg Cfg) (body func(), spec *Spec)
+	Name    string
+	Make    func(cfg Cfg) (body func(), spec *Spec)
+	Horizon int // step horizon of one execution (0: the explorer's default)
 }
 
 // join waits for n completions on done.
@@ -207,6 +208,37 @@ func init() {
 		}, sp
 	}})
 
+	// Q10 chain: a group that is never idle for 700 callbacks, each one submitting the next from inside (the worker
+	// is always in the last queued callback when the next arrives; the queue slice grows and is reused).
+	reg(&Scenario{Name: "Q10", Horizon: 200000, Make: func(cfg Cfg) (func(), *Spec) {
+		const n = 700
+		sp := &Spec{Closes: -1}
+		for i := 0; i < n; i++ {
+			sp.MustRun = append(sp.MustRun, fmt.Sprintf("N%03d", i))
+		}
+		return func() {
+			w := NewWorld(cfg)
+			sdone := make(chan struct{}, 1)
+			w.StartServe(sdone)
+			var submit func(i int)
+			submit = func(i int) {
+				id := fmt.Sprintf("N%03d", i)
+				vsched.Note(Mon, "submit "+id)
+				w.S.WithGroup("free", func(*res.Service) {
+					vsched.Emit(Mon, "enter "+id+" g=free want=free")
+					if i+1 < n {
+						submit(i + 1)
+					}
+					vsched.Emit(Mon, "exit "+id)
+				})
+				vsched.Note(Mon, "ret "+id+" ok")
+			}
+			submit(0)
+			vsched.AwaitQuiescence()
+			vsched.Emit(Mon, "quiesced")
+		}, sp
+	}})
+
 	// Q2 idle->busy: a group drains completely, then is hit again by P and N concurrently.
 	reg(&Scenario{Name: "Q2", Make: func(cfg Cfg) (func(), *Spec) {
 		sp := &Spec{MustRun: []string{"W0", "R1", "W1"}, Closes: -1, Order: [][2]string{{"W0", "R1"}, {"W0", "W1"}}}
@@ -336,8 +368,9 @@ func init() {
 		}, sp
 	}})
 
-	// S3x: Shutdown against one publishing API call.
-	for _, api := range []string{"Reset", "ResetAll", "TokenEvent", "TokenEventWithID", "TokenReset"} {
+	// S3x: Shutdown against one publishing API call (the last three are payload-less events on a Resource
+	// handle kept from Service.Resource, emitted from outside any callback).
+	for _, api := range []string{"Reset", "ResetAll", "TokenEvent", "TokenEventWithID", "TokenReset", "Reaccess", "DeleteEv", "CustomNil"} {
 		api := api
 		reg(&Scenario{Name: "S3" + api, Make: func(cfg Cfg) (func(), *Spec) {
 			sp := &Spec{Shutdown: true, Closes: 1}
@@ -359,6 +392,20 @@ func init() {
 							w.S.TokenEventWithID("c1", "tid", nil)
 						case "TokenReset":
 							w.S.TokenReset("auth.t.a", "tid")
+						case "Reaccess", "DeleteEv", "CustomNil":
+							r, err := w.S.Resource(w.A("1"))
+							if err != nil {
+								panic(err)
+							}
+							vsched.Yield()
+							switch api {
+							case "Reaccess":
+								r.ReaccessEvent()
+							case "DeleteEv":
+								r.DeleteEvent()
+							default:
+								r.Event("ping", nil)
+							}
 						}
 					})
 				})
